@@ -438,6 +438,31 @@ def _fc_fc_sq(net):
     return _fc(net, 16) and _fc(net, 16)
 
 
+@inst("fc_twins_batched")
+def _fc_twins_batched(net):
+    """the input reshaped to [H*W, C] (a batch of H*W rows) feeds TWO FULLY_CONNECTED operators that name the same weight tensor (own biases);
+    the second one continues the chain, the first one stays a graph output"""
+    t = net.T(net.cur)
+    if t["dtype"] not in ("int8", "uint8", "int16") or len(t["shape"]) != 4 or t["shape"][0] != 1:
+        return False
+    n, h, w, c = t["shape"]
+    rows = h * w
+    if rows < 2 or rows * c > 4096:
+        return False
+    x = net.cur
+    dt = t["dtype"]
+    shp = net.const([2], "int32", "data", values=[rows, c])
+    r = net.act([rows, c], dt, q=(net.scale(x), net.zp(x)))
+    net.op("RESHAPE", [x, shp], [r], ("ReshapeOptions", dict(NewShape=[rows, c])))
+    wdt = _wdtype(dt)
+    wi = net.const([12, c], wdt, "weights", scale=[0.005], zp=0 if wdt == "int8" else 128)
+    for _ in range(2):
+        bi = net.const([12], "int32" if dt != "int16" else "int64", "bias", scale=[net.scale(r) * 0.005], zp=0)
+        y = net.act([rows, 12], dt)
+        net.op("FULLY_CONNECTED", [r, wi, bi], [y], ("FullyConnectedOptions", dict(FusedActivationFunction=0, WeightsFormat=0, KeepNumDims=False)))
+    return True
+
+
 @inst("conv_c3_sq")
 def _conv_c3_sq(net):
     """convolution to 3 channels followed by a 3x3 convolution 3 -> 3: O == H == W == I, the kernel volume has the same shape in
@@ -1193,7 +1218,7 @@ SIGMA_Q = [
     "conv1x1", "conv3x3", "conv3x3s2", "conv3x3v_relu6", "conv3x3d2", "dw3x3", "dw3x3s2", "fc", "maxpool2x2",
     "avgpool2x2", "avgpool3x3same", "add_res", "add_const", "add_scalar", "add_bcast_h", "sub_const", "mul_const",
     "min_const", "relu", "leaky_relu", "logistic", "tanh", "hard_swish", "reshape", "concat", "split", "strided_slice",
-    "pad_hw", "pad_c", "mean", "resize_nn2", "quantize", "tconv_s2", "softmax", "cpu_d2s", "cpu_custom", "conv_dynw", "cpu_neg", "tap", "branch_cpu", "branch_npu", "conv_dynw_nobias", "cpu_custom_opt", "conv3x3_c1", "slice", "conv_again", "conv_pair_shared", "reshape_requant", "fc_fc_sq", "conv_c3_sq", "cpu_conv_s4", "cpu_conv_s4_pair", "logistic_coarse", "c24_reshape_w_relu", "conv_then_c1", "cpu_squeeze0", "late_cpu_reader", "skip_over_cpu", "cpu_sub_nopot", "lut_evict_chain", "lut_same_over_ew", "fanout_reshape_c24", "fanout_reshape_c32", "conv3x3_g2", "conv3x3_g2_pc", "conv1x1_g4",
+    "pad_hw", "pad_c", "mean", "resize_nn2", "quantize", "tconv_s2", "softmax", "cpu_d2s", "cpu_custom", "conv_dynw", "cpu_neg", "tap", "branch_cpu", "branch_npu", "conv_dynw_nobias", "cpu_custom_opt", "conv3x3_c1", "slice", "conv_again", "conv_pair_shared", "reshape_requant", "fc_fc_sq", "conv_c3_sq", "cpu_conv_s4", "cpu_conv_s4_pair", "logistic_coarse", "c24_reshape_w_relu", "conv_then_c1", "cpu_squeeze0", "late_cpu_reader", "skip_over_cpu", "cpu_sub_nopot", "lut_evict_chain", "lut_same_over_ew", "fanout_reshape_c24", "fanout_reshape_c32", "conv3x3_g2", "conv3x3_g2_pc", "conv1x1_g4", "fc_twins_batched",
 ]
 SIGMA_T = SIGMA_Q + [n for n, (_, tags) in INSTANCES.items() if "t" in tags]
 SIGMA_C = [n for n, (_, tags) in INSTANCES.items() if "c" in tags]
